@@ -285,7 +285,7 @@ func (f *frame) execInstr(n *node, ins ssa.Instruction) bool {
 				rv.Sub = append(rv.Sub, x.coerce(val(r), sig.Results().At(i).Type()))
 			}
 		}
-		f.rets = append(f.rets, retInfo{n.reach, rv, n.heap, n.facts})
+		f.rets = append(f.rets, retInfo{n.reach, rv, n.heap, n.facts, in.Pos()})
 
 	case *ssa.Panic:
 		if !f.spec && !x.inSpec() && x.safeOn {
@@ -790,6 +790,20 @@ func (x *Exec) binopVals(f *frame, n *node, op token.Token, a, b Val, xt, yt, rt
 	case token.SUB:
 		return bin("bvsub")
 	case token.MUL:
+		// x * (c ? k1 : k2) with literal k1, k2 (a sign, a unit): distribute, so that no
+		// symbolic multiplier reaches the solver
+		for swap := 0; swap < 2; swap++ {
+			u, v := xa, yb
+			if swap == 1 {
+				u, v = yb, xa
+			}
+			if c, k1, k2, ok := iteOfLiterals(g, v); ok {
+				return Val{T: rt, C: []string{g.Fresh(s, ite(c, mulLit(u, k1, w), mulLit(u, k2, w)))}}
+			}
+			if k, _, ok := parseBV(v); ok {
+				return Val{T: rt, C: []string{g.Fresh(s, mulLit(u, k, w))}}
+			}
+		}
 		return bin("bvmul")
 	case token.QUO, token.REM:
 		if f != nil {
@@ -1217,4 +1231,85 @@ func foldBV(op token.Token, xa, yb string, w int, signed bool, yt types.Type) (s
 		return boolT(a >= b)
 	}
 	return "", false
+}
+
+// iteOfLiterals recognises a term defined as (ite c k1 k2) with literal branches.
+func iteOfLiterals(g *Gen, t string) (string, uint64, uint64, bool) {
+	d, ok := g.defOf[t]
+	if !ok {
+		d = t
+	}
+	if !strings.HasPrefix(d, "(ite ") {
+		return "", 0, 0, false
+	}
+	parts := splitSexp(d[5 : len(d)-1])
+	if len(parts) != 3 {
+		return "", 0, 0, false
+	}
+	k1, _, ok1 := parseBV(parts[1])
+	k2, _, ok2 := parseBV(parts[2])
+	if !ok1 || !ok2 {
+		return "", 0, 0, false
+	}
+	return parts[0], k1, k2, true
+}
+
+// splitSexp splits the top-level items of a space separated s-expression list.
+func splitSexp(s string) []string {
+	var out []string
+	depth := 0
+	start := -1
+	inbar := false
+	for i := 0; i < len(s); i++ {
+		c := s[i]
+		if c == '|' {
+			inbar = !inbar
+		}
+		if inbar {
+			if start < 0 {
+				start = i
+			}
+			continue
+		}
+		switch {
+		case c == '(':
+			if depth == 0 && start < 0 {
+				start = i
+			}
+			depth++
+		case c == ')':
+			depth--
+		case c == ' ' && depth == 0:
+			if start >= 0 {
+				out = append(out, s[start:i])
+				start = -1
+			}
+			continue
+		default:
+			if start < 0 {
+				start = i
+			}
+		}
+	}
+	if start >= 0 {
+		out = append(out, s[start:])
+	}
+	return out
+}
+
+// mulLit is x*k at width w with the trivial multipliers simplified.
+func mulLit(x string, k uint64, w int) string {
+	mask := ^uint64(0)
+	if w < 64 {
+		mask = (uint64(1) << uint(w)) - 1
+	}
+	switch k & mask {
+	case 0:
+		return bvLit(0, w)
+	case 1:
+		return x
+	case mask:
+		return "(bvneg " + x + ")"
+	}
+	return "(bvmul " + x + " " + bvLit(k, w) + ")"
 }
